@@ -233,7 +233,9 @@ impl Engine for C15 {
             tab_desc_pct: 0,
             utf8_id_pct: 0,
             dup_id_pct: 0,
-            mega_1_in: 20000,
+            // megabase records where the cost is per record (oligo, k-mer CGR, min); the
+            // commands that count k-mers pay one scheduling point per k-mer
+            mega_1_in: if matches!(sub, "oligo" | "kcgr" | "min") { 2500 } else { 0 },
             twin_mega_1_in: 0,
         };
         let mut records = g.gen(rng);
